@@ -46,9 +46,9 @@ func init() {
 
 // reviewed sites: pool/function
 var concPoolReviewed = map[string]bool{
-	"pdf.zlibWriterPool/encodeFlateLZW":           true, // Get; Put in the close closure after a successful zlib Close
-	"pdf.zlibReaderPool/zlibNewReader":            true, // Get (+Reset); an object whose Reset fails is dropped
-	"pdf.zlibReaderPool/(pooledZlibReader).Close": true, // Put after a successful Close (ErrChecksum tolerated)
+	"pdf.zlibWriterPool/encodeFlateLZW":            true, // Get; Put in the close closure after the first successful zlib Close; closed flag
+	"pdf.zlibReaderPool/zlibNewReader":             true, // Get (+Reset); an object whose Reset fails is dropped
+	"pdf.zlibReaderPool/(*pooledZlibReader).Close": true, // Put after the first successful Close (ErrChecksum tolerated); closed flag
 }
 
 type poolSite struct {
@@ -516,6 +516,9 @@ func concPoolInventory(repo string) (string, []string, error) {
 		key := s.pool + "/" + strings.SplitN(s.fn, "$", 2)[0]
 		if s.kind == "put" && s.maxPut > 1 {
 			viol = append(viol, fmt.Sprintf("pool-put-twice\x00%s: %s puts %s into the pool %d times on one path", s.pool, s.fn, s.arg, s.maxPut))
+		}
+		if s.kind == "put" && s.guard != "-" && !strings.HasPrefix(s.guard, "flag:") {
+			viol = append(viol, fmt.Sprintf("pool-double-close\x00%s: %s puts %s into the pool and can be run twice (a second Close), but no persisting closed flag protects the Put (guard=%s): after Close(); Close() two later decodes share the object", s.pool, s.fn, s.arg, s.guard))
 		}
 		if !concPoolReviewed[key] {
 			viol = append(viol, fmt.Sprintf("pool-site-unreviewed\x00%s: new %s site in %s (argument %s) — an object may now be put into the pool on a path on which it is put again later (e.g. by Close), after which two decodes share it", s.pool, strings.ToUpper(s.kind[:1])+s.kind[1:], s.fn, s.arg))
